@@ -271,6 +271,8 @@ func (cp *copier) walkHostFS(dest, src string, maxSymlinks int, includeMounts bo
 		}
 		if !strings.HasPrefix(target, "/") {
 			target = filepath.Join(filepath.Dir(src), target)
+		} else {
+			target = filepath.Clean(target)
 		}
 		return cp.walkMount(dest, target, maxSymlinks-1, true)
 	}
